@@ -69,7 +69,7 @@ package httpd
 // postcondition.
 //@ func authenticate$1
 //@   props C20
-//@   requires r != nil && r.URL != nil && h != nil
+//@   requires r != nil && r.URL != nil && h != nil && h.AuthService != nil
 //@   guardcall inner#1: !requireAuthentication
 //@   guardcall inner#2: requireAuthentication
 //@       && (creds.Method == UserAuthentication || creds.Method == BearerAuthentication || creds.Method == SubscriptionAuthentication)
